@@ -9,10 +9,13 @@ Driver side of C13.
 
 Oracle for `uc` (independent of the `Prog` model): folding, in the observed order of committed
 `add`/`update`/`remove` calls, each client's *status transformation* over the initial status word
-gives the final word (the transformation of a probe depends only on goal and outcome: success /
-retry-with-budget-left / final failure); a probe that reports `retried` left exactly one re-queued
-probe with `retries + 1 ≤ max`, ready `⌊e^retries⌋` seconds after a clock value of the run, same
-address/port/goal/max and no expiry; one that reports `outofretries` or `ok` re-queued nothing.
+gives the final word of the record at the address of the probe under test (the transformation of a probe
+depends only on goal and outcome: success / retry-with-budget-left / final failure); `requeueCheck`: the final
+queue is the initial queue plus, for every probe client that reports `retried`, exactly one re-queued probe
+with `retries + 1 ≤ max`, the same address/port/goal/max, no expiry and a ready time (the `PQ` score of the
+item) equal to `c + ⌊e^(retries+1)⌋ s` for a clock value `c` of the run; one that reports `outofretries`
+(only when `retries ≥ max`) or `ok` re-queued nothing; no other item with a retry count ≥ 1 appears and none
+disappears.
 -/
 namespace Swat4.Drv.C13
 open Swat4 Swat4.Drv Swat4.UC Std
@@ -53,24 +56,88 @@ def svStatus (dump : String) (a : String) : Option Nat :=
     | "SV" :: a' :: _ :: st :: _ => if a' == a then st.toNat? else none
     | _ => none
 
-def queueLines (dump : String) : List (List String) :=
-  (dump.splitOn ";").filterMap fun line =>
-    match line.splitOn "," with
-    | "PI" :: rest => some rest
+/-- a queued probe as rendered in a keyspace dump: the `PI,<n>,…` payload joined with the ready time of `PQ,<n>,…` -/
+structure QItem where
+  addr : String
+  port : String
+  goal : String
+  retries : Int
+  maxr : String
+  expires : String
+  ready : Option Int          -- `none`: a payload without a queue entry
+  deriving BEq, Repr
+
+def queueItems (dump : String) : List QItem :=
+  let lines := (dump.splitOn ";").map (·.splitOn ",")
+  lines.filterMap fun l =>
+    match l with
+    | ["PI", n, a, port, goal, retries, maxr, exp] =>
+      let ready := lines.findSome? fun l' => match l' with
+        | ["PQ", n', sc] => if n' == n then sc.toInt? else none
+        | _ => none
+      some ⟨a, port, goal, retries.toInt?.getD (-1), maxr, exp, ready⟩
+    | "PI" :: _ => some ⟨"undecodable", "", "", -1, "", "", none⟩
     | _ => none
 
-/-- re-queue discipline of the probe under test: `retried` ⇒ one more retry within budget, same
-address/port/goal/max, no expiry -/
-def requeueCheck (p : Probe) (result : String) (idump : String) : Bool :=
-  let a := "1.1.1.1:10480"
-  let mine := (queueLines idump).filter fun (l : List String) =>
-    match l with
-    | [_, a', port, goal, retries, maxr, _] => a' == a && port == toString p.port && goal == toString p.goal.toNat &&
-        retries == toString (p.retries + 1) && maxr == toString p.maxRetries
-    | _ => false
-  if result == "retried" then
-    Decidable.decide (p.retries + 1 ≤ p.maxRetries) && Decidable.decide (mine.length ≥ 1) && (mine.all fun (l : List String) => l.getLast? == some "z")
-  else true
+/-- multiset difference `xs − ys` -/
+def msub (xs ys : List QItem) : List QItem := ys.foldl (fun acc y => acc.erase y) xs
+
+/-- clock values of the clients' phase: the clock after the init items, then after every tick `t<ns>` of the
+effective events -/
+def runClocks (initS ieff : String) : List Int :=
+  let c0 := (if initS = "-" then [] else initS.splitOn ",").foldl (fun (c : Int) it =>
+    if it.startsWith "adv" then c + ((it.drop 3).toInt?.getD 0) else c) epoch
+  (ieff.splitOn ",").foldl (fun (acc : List Int) ev =>
+    if ev.startsWith "t" then
+      match (ev.drop 1).toInt?, acc.getLast? with
+      | some d, some c => acc ++ [c + d]
+      | _, _ => acc
+    else acc) [c0]
+
+/-- does the queued item `it` answer the retry of probe `p`: same address/port/goal/max, one more retry -/
+def QItem.answers (it : QItem) (p : Probe) : Bool :=
+  it.addr == p.addr.render && it.port == toString p.port && it.goal == toString p.goal.toNat &&
+    it.retries == p.retries + 1 && it.maxr == toString p.maxRetries
+
+/-- Re-queue discipline, over ALL probe clients of the case and the whole queue (initial queue `q0` → final queue `q1`).
+
+* nothing that was queued disappears (C13 cases have no consumer);
+* every NEW item with a retry count ≥ 1 (a fresh discovery probe has 0) answers exactly one probe client that failed with
+  budget left (`retries < max`) and ended `retried` — or ended in an error after its enqueue call (the update then hit a removed
+  server) — one item per client; it has no expiry and its ready time is `c + ⌊e^r⌋ s` for a clock value `c` of the run and the
+  item's OWN recorded retry count `r` (so: never ready before now + backoff);
+* every client that ended `retried` has its item, and had budget left; one that ended `outofretries` had none
+  (`retries ≥ max`); one that ended `ok` had a successful outcome. -/
+def requeueCheck (specs : List USpec) (results : List String) (icalls : String) (clocks : List Int) (q0 q1 : List QItem) : Bool × String :=
+  let lost := msub q0 q1
+  let fresh := (msub q1 q0).filter fun it => it.retries != 0
+  let probes : List (Nat × Probe × Bool × String) := (specs.zipIdx.filterMap fun (sp, i) =>
+    match sp with
+    | .probe p oc => some (i, p, oc.isSome, results.getD i "")
+    | _ => none)
+  let calls := icalls.splitOn ","
+  -- clients that must / may have re-queued
+  let must := probes.filter fun (_, _, _, r) => r == "retried"
+  let may := probes.filter fun (i, p, ok, r) => !ok && p.retries < p.maxRetries && r.startsWith "err:" && calls.contains s!"{i}:enqueue"
+  -- match every fresh item to one client (mandatory ones first)
+  let (unmatched, pending) := fresh.foldl (fun (acc : List QItem × List (Nat × Probe × Bool × String)) it =>
+    match acc.2.find? fun (_, p, _, _) => it.answers p with
+    | some c => (acc.1, acc.2.erase c)
+    | none => (acc.1 ++ [it], acc.2)) (([] : List QItem), must ++ may)
+  let mustLeft := pending.filter fun c => must.contains c
+  let timing := fresh.all fun it =>
+    it.expires == "z" && (match it.ready with
+      | some rd => clocks.any fun c => rd == c + second * expFloor it.retries
+      | none => false)
+  let budget := probes.all fun (_, p, ok, r) =>
+    (r != "retried" || (!ok && p.retries + 1 ≤ p.maxRetries)) &&
+    (r != "outofretries" || (!ok && p.retries ≥ p.maxRetries)) &&
+    (r != "ok" || ok)
+  let why := (cond lost.isEmpty "" "queued-probe-lost ") ++ (cond unmatched.isEmpty "" s!"unexplained-requeue={unmatched.map fun it => (it.addr, it.goal, it.retries)} ") ++
+    (cond mustLeft.isEmpty "" s!"retried-without-requeue=client{mustLeft.map (·.1)} ") ++
+    (cond timing "" s!"requeue-ready-time-or-expiry={fresh.map fun it => (it.retries, it.ready, it.expires)}:clocks={clocks} ") ++
+    (cond budget "" "retry-budget ")
+  (lost.isEmpty && unmatched.isEmpty && mustLeft.isEmpty && timing && budget, why)
 
 def handleUC (initS clientS : String) (out : List String) : Verdict :=
   let cfg : UCfg := {}
@@ -88,8 +155,12 @@ def handleUC (initS clientS : String) (out : List String) : Verdict :=
         let mdump := ";".intercalate (dumpState run.sys.abs)
         let same := mcallsS == icalls && mres == ires && mdump == idump
         -- oracle: status word by folding intents in commit order over the initial word
-        let a := "1.1.1.1:10480"
-        let w0 := (s0.abs.servers.toList.head?).map fun kv => kv.2.svr.status
+        -- the address of the case: that of the probe under test (client 0)
+        let a := match (specs[0]? : Option USpec) with
+          | some (USpec.probe p _) => p.addr.render
+          | _ => "1.1.1.1:10480"
+        let dump0 := ";".intercalate (dumpState s0.abs)
+        let w0 : Option Status := (svStatus dump0 a).map fun w => BitVec.ofNat 9 w
         let results := ires.splitOn ";"
         let commits := (icalls.splitOn ",").filterMap fun c =>
           match c.splitOn ":" with
@@ -103,15 +174,13 @@ def handleUC (initS clientS : String) (out : List String) : Verdict :=
         let statusOk : Bool := removed || (match expected, svStatus idump a with
           | some e, some got => e.toNat == got
           | _, _ => false)
-        let requeueOk : Bool := (match (specs[0]? : Option USpec) with
-          | some (USpec.probe p _) => requeueCheck p (results.getD 0 "") idump
-          | _ => true)
+        let (requeueOk, requeueWhy) := requeueCheck specs results icalls (runClocks initS ieff) (queueItems dump0) (queueItems idump)
         let ok := statusOk && requeueOk && !(results.any fun r => r == "hung" || r.startsWith "panic") && !(ieff.endsWith "HUNG")
         let info := (if same then "" else
             (if mcallsS != icalls then s!"model-calls={mcallsS} " else "") ++ (if mres != ires then s!"model-res={mres} " else "") ++
             (if mdump != idump then s!"model-dump={mdump} " else "")) ++
           (cond statusOk "" s!"status-not-fold-of-outcomes:expected={expected.map fun (w : Status) => w.toNat}:got={svStatus idump a} ") ++
-          (cond requeueOk "" "requeue-discipline ")
+          (cond requeueOk "" s!"requeue-discipline:{requeueWhy}")
         verdict same ok info
     | _, _ => .bad "C13 specs"
   | _, _, _, _ => .bad "C13 out"
